@@ -22,6 +22,8 @@ tvars == <<k, mode, fnerr, st, pos, closes, failed, remaining, tx, rollbacks, re
 
 InUse == IF tx = "open" THEN 1 ELSE 0
 PoolOK(e) == e.inuse = -1 \/ e.inuse = InUse
+\* the same on the successor state (do not write PoolOKP(e): that would also prime l inside e)
+PoolOKP(e) == e.inuse = -1 \/ e.inuse = (IF tx' = "open" THEN 1 ELSE 0)
 
 Say(verdict, e, detail) ==
   PrintT(ToJson([l |-> l, verdict |-> verdict, prog |-> e.prog, tags |-> devTaken', detail |-> detail,
@@ -53,9 +55,11 @@ TReset ==
   /\ e.t = "reset"
   /\ InitWithP(e.k, e.mode, e.fnerr)
   /\ LET good == /\ e.k \in 0..MaxK /\ e.mode \in {"storage", "direct"}
-                 /\ e.ranges = RangesOf(e.k) /\ e.stepbytes = StepBytes
+                 /\ Len(e.ranges) = e.k
+                 /\ \A i \in 1..e.k : e.ranges[i][1] = RStart(i) /\ e.ranges[i][2] = REnd(i)
+                 /\ e.stepbytes = StepBytes
                  /\ e.partsize = PartSize /\ e.nparts = NParts
-                 /\ e.rb = rollbacks' /\ PoolOK(e)'
+                 /\ e.rb = rollbacks' /\ PoolOKP(e)
                  /\ e.openerr = (IF e.fnerr THEN "err" ELSE "none")
      IN /\ skip' = ~good
         /\ IF good THEN TRUE ELSE Say("mismatch", e, "reset")
@@ -73,7 +77,7 @@ TStep ==
   /\ e.act \in {"Read", "ReadToEnd", "ReadAfterClose", "Close"}
   /\ Do(e.act, e.i)
   /\ LET good == /\ res'.any \/ (e.n = res'.n /\ e.err = res'.err /\ e.ok)
-                 /\ e.rb = rollbacks' /\ PoolOK(e)'
+                 /\ e.rb = rollbacks' /\ PoolOKP(e)
      IN /\ skip' = ~good
         /\ IF good THEN Judge(e) ELSE told' = told /\ Say("mismatch", e, "step")
 
